@@ -15,9 +15,9 @@
 
 use rayon::prelude::*;
 use serde_json::{json, Value};
-use std::collections::{BTreeMap, HashSet};
+use std::collections::{BTreeMap, HashMap, HashSet};
 use vcore::*;
-use write_fonts::read::FontRef;
+use write_fonts::read::{FileRef, FontRef};
 use write_fonts::types::Tag;
 use write_fonts::FontBuilder;
 
@@ -25,12 +25,19 @@ fn main() {
     main_for("C06", body)
 }
 
-const TAGS: [&[u8; 4]; 13] = [
+const TAGS: [&[u8; 4]; 29] = [
     b"head", b"CFF ", b"DSIG", b"glyf", b"OS/2", b"aaaa", b"zzzz", b"cmap",
     // "any tags": bytes outside printable ASCII, in particular first bytes >= 0x80 (which a signed
     // comparison would sort before every ordinary tag), an all-zero and an all-ones tag
     b"\x80abc", b"\xE9xt ", b"\xFF\xFF\xFF\xFF", b"\0\0\0\0", b"a\x80bc",
+    // 13..: the remaining tags of the two recommended physical orders (every tag that
+    // `ordered_tags` treats specially is in the alphabet), plus `CFF2` (NOT special: a near miss)
+    b"hhea", b"maxp", b"hmtx", b"LTSH", b"VDMX", b"hdmx", b"fpgm", b"prep", b"cvt ", b"loca",
+    b"kern", b"name", b"post", b"gasp", b"PCLT", b"CFF2",
 ];
+/// every tag with a special rule in `FontBuilder::ordered_tags` (19 TrueType-order tags, `CFF `,
+/// `DSIG`) plus three ordinary ones (aaaa, zzzz, CFF2)
+const REC_POOL: [usize; 24] = [0, 13, 14, 4, 15, 16, 17, 18, 7, 19, 20, 21, 22, 3, 23, 24, 25, 26, 27, 1, 2, 5, 6, 28];
 /// tag pools (indices into TAGS) of the map families
 const BASE_POOL: [usize; 8] = [0, 1, 2, 3, 4, 5, 6, 7];
 const HIGH_POOL: [usize; 8] = [0, 5, 2, 8, 9, 10, 11, 12];
@@ -150,6 +157,27 @@ fn check_sfnt(file: &[u8], model: &BTreeMap<[u8; 4], Vec<u8>>) -> Result<Checked
             format!("listed {} tags, supplied {}", listed.len(), wanted.len()),
         );
     }
+    // --- the reader's own listing ("lists exactly those tags in ascending order" is observed through
+    // `table_directory`): every header field and every record field the reader reports must equal
+    // the raw bytes the harness decoded itself
+    {
+        let td = &font.table_directory;
+        let hdr = (td.sfnt_version(), td.num_tables(), td.search_range(), td.entry_selector(), td.range_shift());
+        let raw = (version, n as u16, be16(file, 6).unwrap_or(0), be16(file, 8).unwrap_or(0), be16(file, 10).unwrap_or(0));
+        if hdr != raw {
+            return e("reader-header-fields-differ-from-raw-bytes", format!("reader {hdr:?}, raw {raw:?}"));
+        }
+        let rr = td.table_records();
+        if rr.len() != n {
+            return e("reader-lists-wrong-number-of-records", format!("reader {}, numTables {n}", rr.len()));
+        }
+        for (i, (r, raw)) in rr.iter().zip(recs.iter()).enumerate() {
+            let got = (r.tag().to_be_bytes(), r.checksum(), r.offset() as usize, r.length() as usize);
+            if got != *raw {
+                return e("reader-record-differs-from-raw-bytes", format!("record {i}: reader {got:?}, raw {raw:?}"));
+            }
+        }
+    }
     // --- per table: alignment, in file, zero padding, bytes, checksum
     let mut total_wrapped = false;
     let mut spans: Vec<(usize, usize)> = vec![];
@@ -218,6 +246,55 @@ fn check_sfnt(file: &[u8], model: &BTreeMap<[u8; 4], Vec<u8>>) -> Result<Checked
     for t in TAGS.iter().chain([b"OTTO", b"\0\0\0\0", b"\xff\xff\xff\xff"].iter()) {
         if !model.contains_key(*t) && font.table_data(Tag::new(t)).is_some() {
             return e("phantom-table", format!("{}", Tag::new(t)));
+        }
+    }
+    // ... nor the immediate neighbours (tag value +-1) of a supplied tag: a lookup that lands on an
+    // adjacent record must not answer
+    for t in model.keys() {
+        let v = u32::from_be_bytes(*t);
+        for nb in [v.wrapping_sub(1), v.wrapping_add(1)] {
+            let nbb = nb.to_be_bytes();
+            if !model.contains_key(&nbb) && font.table_data(Tag::new(&nbb)).is_some() {
+                return e("phantom-table", format!("neighbour {:02x?} of {}", nbb, Tag::new(t)));
+            }
+        }
+    }
+    // --- "opens successfully" through the other documented routes: `FontRef::from_index(.., 0)`
+    // ("if a single font file is provided, the index parameter must be 0") and `FileRef::new`
+    // (a single font, one entry in `fonts()`); both must return the same tables. Index 1 must be refused.
+    match guard(|| FontRef::from_index(file, 0)) {
+        Ok(Ok(f0)) => {
+            for t in model.keys() {
+                let tg = Tag::new(t);
+                if f0.table_data(tg).map(|d| d.as_bytes()) != font.table_data(tg).map(|d| d.as_bytes()) {
+                    return e("from_index-0-differs-from-new", format!("{tg}"));
+                }
+            }
+        }
+        Ok(Err(err)) => return e("from_index-0-does-not-open", format!("{err}")),
+        Err(p) => return e("open-panics", format!("FontRef::from_index panicked: {}", p.message)),
+    }
+    if let Ok(Ok(_)) = guard(|| FontRef::from_index(file, 1)) {
+        return e("from_index-1-opens-a-single-font", String::new());
+    }
+    match guard(|| FileRef::new(file)) {
+        Ok(Ok(FileRef::Font(_))) => {}
+        Ok(Ok(FileRef::Collection(_))) => return e("FileRef-takes-built-font-for-a-collection", String::new()),
+        Ok(Err(err)) => return e("FileRef-does-not-open", format!("{err}")),
+        Err(p) => return e("open-panics", format!("FileRef::new panicked: {}", p.message)),
+    }
+    if let Ok(fr) = FileRef::new(file) {
+        let fonts: Vec<_> = fr.fonts().collect();
+        if fonts.len() != 1 || fonts[0].is_err() {
+            return e("FileRef-fonts-not-exactly-one", format!("{} entries", fonts.len()));
+        }
+        if let Ok(f1) = &fonts[0] {
+            for t in model.keys() {
+                let tg = Tag::new(t);
+                if f1.table_data(tg).map(|d| d.as_bytes()) != font.table_data(tg).map(|d| d.as_bytes()) {
+                    return e("FileRef-font-differs-from-new", format!("{tg}"));
+                }
+            }
         }
     }
     // --- "with a head table of at least 12 bytes the checksum of the whole file is 0xB1B0AFBA"
@@ -357,10 +434,29 @@ struct Local {
     builds: u64,
     wrapped: u64,
     slack: u64,
+    /// histories only: digest of the final model -> (digest of the built file, the
+    /// lexicographically smallest op sequence seen with it); `route_conflicts` collects pairs of
+    /// histories with the same final model but different files
+    routes: HashMap<u64, (u64, Vec<u32>)>,
+    route_conflicts: Vec<(Vec<u32>, Vec<u32>)>,
 }
 impl Local {
     fn new() -> Self {
-        Local { all: HashSet::new(), nontrivial: HashSet::new(), maps: 0, builds: 0, wrapped: 0, slack: 0 }
+        Local { all: HashSet::new(), nontrivial: HashSet::new(), maps: 0, builds: 0, wrapped: 0, slack: 0, routes: HashMap::new(), route_conflicts: vec![] }
+    }
+    fn note_route(&mut self, model: u64, file: u64, ops: &[u32]) {
+        match self.routes.get_mut(&model) {
+            None => {
+                self.routes.insert(model, (file, ops.to_vec()));
+            }
+            Some((f, o)) => {
+                if *f != file {
+                    self.route_conflicts.push((o.clone(), ops.to_vec()));
+                } else if (ops.len(), ops) < (o.len(), o.as_slice()) {
+                    *o = ops.to_vec();
+                }
+            }
+        }
     }
 }
 
@@ -424,6 +520,153 @@ fn run_map(run: &Run, base: &MapCase, orders: &[Vec<usize>], l: &mut Local) {
             }
         }
     }
+    // Input route: `add_raw` takes `impl Into<Cow<[u8]>>`. Everything above hands over owned `Vec`s;
+    // for maps of <= 2 tables the same map is also built from borrowed slices (`Cow::Borrowed`, the
+    // route on which `build` must copy `head` before zeroing its adjustment). Same blobs => same file.
+    if base.tags.len() <= 2 {
+        if let (Some(f0), Some(ord)) = (&first, orders.first()) {
+            let blobs: Vec<Vec<u8>> = (0..base.tags.len()).map(|i| blob(base.tags[i], base.lens[i], base.fills[i])).collect();
+            let keep = blobs.clone();
+            l.builds += 1;
+            let built = guard(|| {
+                let mut b = FontBuilder::new();
+                for &i in ord {
+                    b.add_raw(Tag::new(TAGS[base.tags[i]]), &blobs[i][..]);
+                }
+                b.build()
+            });
+            let mut c = base.clone();
+            c.order = ord.clone();
+            match built {
+                Ok(f) if f == *f0 && blobs == keep => {}
+                Ok(_) => run.violation(
+                    &format!("FontBuilder map: borrowed-slice input builds a different file than owned input (tables: {})", c.tags.len()),
+                    &c.describe(),
+                    c.to_json(),
+                ),
+                Err(p) => run.violation(
+                    &format!("FontBuilder::build panic on borrowed input {} [{}]", p.kind(), p.site()),
+                    &format!("{}: {}", c.describe(), p.message),
+                    c.to_json(),
+                ),
+            }
+        }
+    }
+}
+
+/// Length sweep: EVERY table length 0..=max (not only the mod-4 representatives of the map
+/// alphabets), plus lengths around 2^16 and 2^24, in four shapes:
+///   zzzz(len) alone | head(16) + zzzz(len) | head(len) alone | aaaa(len) + zzzz(5)
+/// x fills {FF, ramp}, each in every insertion order and through the borrowed route; in addition
+/// `read_fonts::tables::compute_checksum` is compared directly with the harness's spec checksum on
+/// every blob (the unpadded route: remainder handling) and on its zero-padded form.
+fn length_sweep(run: &Run) {
+    let max = run.tier.pick(2051usize, 16500);
+    let mut lens: Vec<usize> = (0..=max).collect();
+    lens.extend(65_530..=65_541usize);
+    let huge: [usize; 3] = [(1 << 24) - 1, 1 << 24, (1 << 24) + 1];
+    run.bound("length_sweep", json!(format!("every length 0..={max} and 65530..=65541 x fills {{FF, ramp}} x shapes {{zzzz(len) | head(16)+zzzz(len) | head(len) | aaaa(len)+zzzz(5)}}, all insertion orders + borrowed-slice route; lengths {huge:?} (ramp) as head(16)+zzzz(len); compute_checksum(blob) and compute_checksum(padded blob) against the harness's spec checksum for every (len, fill)")));
+    let mut items: Vec<(usize, u8)> = vec![];
+    for &len in &lens {
+        for fill in [1u8, 2] {
+            items.push((len, fill));
+        }
+    }
+    for &len in &huge {
+        items.push((len, 2));
+    }
+    let locals: Vec<Local> = items
+        .par_iter()
+        .fold(Local::new, |mut l, &(len, fill)| {
+            let shapes: Vec<MapCase> = if len >= (1 << 20) {
+                vec![MapCase { tags: vec![0, 6], lens: vec![16, len], fills: vec![2, fill], order: vec![] }]
+            } else {
+                vec![
+                    MapCase { tags: vec![6], lens: vec![len], fills: vec![fill], order: vec![] },
+                    MapCase { tags: vec![0, 6], lens: vec![16, len], fills: vec![2, fill], order: vec![] },
+                    MapCase { tags: vec![0], lens: vec![len], fills: vec![fill], order: vec![] },
+                    MapCase { tags: vec![5, 6], lens: vec![len, 5], fills: vec![fill, 2], order: vec![] },
+                ]
+            };
+            for c in &shapes {
+                run_map(run, c, &permutations(c.tags.len()), &mut l);
+            }
+            // direct differential on the public checksum function
+            let b = blob(6, len, fill);
+            let mut padded = b.clone();
+            padded.resize((len + 3) / 4 * 4, 0);
+            let want = spec_checksum(&b).0;
+            for (what, data) in [("unpadded", &b), ("zero-padded", &padded)] {
+                l.builds += 1;
+                match guard(|| read_fonts::tables::compute_checksum(data)) {
+                    Ok(got) if got == want => {}
+                    Ok(got) => run.violation(
+                        &format!("compute_checksum differs from the spec sum ({what} input, len%4={}, {})", len % 4, if len < 4 { "shorter than one word" } else { "at least one word" }),
+                        &format!("len {len} fill {fill}: {got:#010x} vs {want:#010x}"),
+                        json!({"family":"checksum_direct","len":len,"fill":fill}),
+                    ),
+                    Err(p) => run.violation(&format!("compute_checksum panic {} [{}]", p.kind(), p.site()), &p.message, json!({"family":"checksum_direct","len":len,"fill":fill})),
+                }
+            }
+            l
+        })
+        .collect();
+    let mut maps = 0;
+    for l in &locals {
+        run.observe_many(&l.all, &l.nontrivial);
+        run.evals(l.builds);
+        run.trans(l.builds * 2);
+        maps += l.maps;
+    }
+    run.count("length_sweep_lengths", (lens.len() + huge.len()) as u64);
+    run.count("length_sweep_maps", maps);
+}
+
+/// The replayable part of `length_sweep`'s direct checksum differential.
+fn checksum_direct_case(run: &Run, len: usize, fill: u8) {
+    let b = blob(6, len, fill);
+    let mut padded = b.clone();
+    padded.resize((len + 3) / 4 * 4, 0);
+    let want = spec_checksum(&b).0;
+    for (what, data) in [("unpadded", &b), ("zero-padded", &padded)] {
+        run.eval();
+        let got = read_fonts::tables::compute_checksum(data);
+        if got != want {
+            run.violation(
+                &format!("compute_checksum differs from the spec sum ({what} input, len%4={}, {})", len % 4, if len < 4 { "shorter than one word" } else { "at least one word" }),
+                &format!("len {len} fill {fill}: {got:#010x} vs {want:#010x}"),
+                json!({"family":"checksum_direct","len":len,"fill":fill}),
+            );
+        }
+    }
+}
+
+/// Special-tag family: maps over REC_POOL (every tag `ordered_tags` knows + 3 it does not).
+/// (i) all sets of <= 3 tags (via `maps_family`); (ii) the full 24-tag set and every leave-one-out
+/// subset (with and without `CFF `, `DSIG`, `head`, ...), per-tag length (7 i + 1) mod 6 + 8 [i = 0]
+/// (head 15 bytes => adjustment engaged), ramp/FF alternating, in 3 insertion orders.
+fn special_tag_sets(run: &Run) {
+    let mut l = Local::new();
+    let n = REC_POOL.len();
+    let mut sets = 0u64;
+    for leave in 0..=n {
+        let idx: Vec<usize> = (0..n).filter(|i| *i != leave).collect();
+        let k = idx.len();
+        let base = MapCase {
+            tags: idx.iter().map(|i| REC_POOL[*i]).collect(),
+            lens: idx.iter().map(|i| (7 * i + 1) % 6 + if *i == 0 { 14 } else { 0 }).collect(),
+            fills: idx.iter().map(|i| 1 + (*i % 2) as u8).collect(),
+            order: vec![],
+        };
+        let orders: Vec<Vec<usize>> = vec![(0..k).collect(), (0..k).rev().collect(), (0..k).map(|i| (i * 5 + 3) % k).collect()];
+        // (i * 5 + 3) mod k is a permutation only if gcd(5, k) = 1: k is 23 or 24 here
+        run_map(run, &base, &orders, &mut l);
+        sets += 1;
+    }
+    run.observe_many(&l.all, &l.nontrivial);
+    run.evals(l.builds);
+    run.trans(l.builds * 24);
+    run.count("special_tag_big_sets", sets);
 }
 
 fn maps_family(run: &Run, pool: &[usize], k: usize, lens: &[usize], fills: &[u8], orders: &[Vec<usize>], name: &str) {
@@ -467,6 +710,8 @@ fn maps_family(run: &Run, pool: &[usize], k: usize, lens: &[usize], fills: &[u8]
 // ---------------------------------------------------------------------------
 
 const HTAGS: [&[u8; 4]; 4] = [b"head", b"aaaa", b"CFF ", b"\xE9xt "];
+/// tags asked of `FontBuilder::contains` at the end of every history
+const HIST_PROBES: [&[u8; 4]; 9] = [b"head", b"aaaa", b"CFF ", b"\xE9xt ", b"maxp", b"zzzz", b"DSIG", b"heae", b"\0\0\0\0"];
 
 fn hist_blob(tag: usize, variant: usize) -> Vec<u8> {
     // variant 0: 13-byte ramp; variant 1: 16 bytes of FF (head >= 12 in both: adjustment engaged);
@@ -500,13 +745,26 @@ fn external_tables() -> Vec<([u8; 4], Vec<u8>)> {
     t
 }
 
+/// Variants of the hand-assembled font (all valid inputs for `FontRef`):
+///   0 version 0x00010000, tables in directory order, each padded
+///   1 version 'OTTO'            2 version 'true'
+///   3 tables stored in REVERSE directory order, the physically last one NOT padded (the file ends
+///     exactly where a table of length 5 ends)
+///   4 a 4-byte gap of FF before every table and 8 trailing FF bytes after the last
+const EXTERNAL_VARIANTS: u32 = 5;
+
 /// sfnt assembled by the harness itself from the spec (no FontBuilder): header, directory sorted by
-/// unsigned tag value, per-table checksums, 4-byte aligned zero-padded tables
-fn external_sfnt() -> Vec<u8> {
+/// unsigned tag value, per-table checksums, 4-byte aligned tables
+fn external_sfnt_variant(variant: u32) -> Vec<u8> {
     let tables = external_tables();
     let n = tables.len();
     let mut out = vec![];
-    out.extend_from_slice(&0x0001_0000u32.to_be_bytes());
+    let version: u32 = match variant {
+        1 => 0x4F54_544F,
+        2 => 0x7472_7565,
+        _ => 0x0001_0000,
+    };
+    out.extend_from_slice(&version.to_be_bytes());
     out.extend_from_slice(&(n as u16).to_be_bytes());
     // searchRange / entrySelector / rangeShift for n = 7: 64, 2, 48
     let sel = (n as f64).log2().floor() as u16;
@@ -514,34 +772,55 @@ fn external_sfnt() -> Vec<u8> {
     out.extend_from_slice(&sr.to_be_bytes());
     out.extend_from_slice(&sel.to_be_bytes());
     out.extend_from_slice(&((n as u16) * 16 - sr).to_be_bytes());
-    let mut offset = 12 + 16 * n;
-    for (tag, data) in &tables {
+    // physical placement
+    let phys: Vec<usize> = if variant == 3 { (0..n).rev().collect() } else { (0..n).collect() };
+    let gap = if variant == 4 { 4 } else { 0 };
+    let mut offsets = vec![0usize; n];
+    let mut body: Vec<u8> = vec![];
+    let base = 12 + 16 * n;
+    for (k, &i) in phys.iter().enumerate() {
+        body.extend(std::iter::repeat(0xFFu8).take(gap));
+        offsets[i] = base + body.len();
+        body.extend_from_slice(&tables[i].1);
+        let last = k + 1 == n;
+        if !(variant == 3 && last) {
+            body.resize((body.len() + 3) / 4 * 4, 0);
+        }
+    }
+    if variant == 4 {
+        body.extend_from_slice(&[0xFF; 8]);
+    }
+    for (i, (tag, data)) in tables.iter().enumerate() {
         out.extend_from_slice(tag);
         out.extend_from_slice(&spec_checksum(data).0.to_be_bytes());
-        out.extend_from_slice(&(offset as u32).to_be_bytes());
+        out.extend_from_slice(&(offsets[i] as u32).to_be_bytes());
         out.extend_from_slice(&(data.len() as u32).to_be_bytes());
-        offset += (data.len() + 3) / 4 * 4;
     }
-    for (_, data) in &tables {
-        out.extend_from_slice(data);
-        out.resize((out.len() + 3) / 4 * 4, 0);
-    }
+    out.extend_from_slice(&body);
     out
 }
 
-/// "External font" sub-check: the hand-assembled font must open and answer `table_data` for every
-/// one of its tags with the right bytes (and nothing for absent tags). It is also copy source S6
-/// of the history family.
-fn external_font_check(run: &Run) {
-    let bytes = external_sfnt();
+fn external_sfnt() -> Vec<u8> {
+    external_sfnt_variant(0)
+}
+
+const EXTERNAL_NAMES: [&str; 5] = ["version 0x00010000, directory order, padded", "version OTTO", "version true", "reverse physical order, last table unpadded at end of file", "gaps before tables and trailing bytes"];
+
+/// "External font" sub-check: each hand-assembled font must open and answer `table_data` for every
+/// one of its tags with the right bytes (and nothing for absent tags), and `copy_missing_tables`
+/// from it into a fresh builder / a builder holding its own `zzzz` must give a well-formed font with
+/// exactly those tables. Variant 0 is also copy source S6 of the history family.
+fn external_font_check(run: &Run, variant: u32) {
+    let bytes = external_sfnt_variant(variant);
     let tables = external_tables();
-    let case = json!({"family":"external"});
+    let vname = EXTERNAL_NAMES[variant as usize % 5];
+    let case = json!({"family":"external","variant":variant});
     run.eval();
     run.count("external_font_checks", 1);
     let font = match guard(|| FontRef::new(&bytes)) {
         Ok(Ok(f)) => f,
         Ok(Err(e)) => {
-            run.violation("FontRef::new: hand-assembled sfnt with non-ASCII tags does not open", &format!("{e}"), case);
+            run.violation(&format!("FontRef::new: hand-assembled sfnt does not open ({vname})"), &format!("{e}"), case);
             return;
         }
         Err(p) => {
@@ -554,7 +833,7 @@ fn external_font_check(run: &Run) {
         if got.as_deref() != Some(data.as_slice()) {
             let class = if tag[0] >= 0x80 { "first byte >= 0x80" } else if tag.iter().any(|b| !(0x20..0x7F).contains(b)) { "non-ASCII byte" } else { "ASCII" };
             run.violation(
-                &format!("FontRef::table_data: a table of a spec-sorted (unsigned tag order) sfnt is not found or differs (tag class: {class})"),
+                &format!("FontRef::table_data: a table of a spec-sorted (unsigned tag order) sfnt is not found or differs (tag class: {class}; {vname})"),
                 &format!("tag {:02x?}: got {:?}, directory has {} bytes", tag, got.map(|g| g.len()), data.len()),
                 case.clone(),
             );
@@ -565,9 +844,214 @@ fn external_font_check(run: &Run) {
             run.violation("FontRef::table_data: answers for a tag that the external sfnt does not contain", &format!("{t:02x?}"), case.clone());
         }
     }
+    // as a copy source
+    for own in [false, true] {
+        let mut want: BTreeMap<[u8; 4], Vec<u8>> = tables.iter().cloned().collect();
+        if own {
+            want.insert(*b"zzzz", vec![0xEE; 3]);
+        }
+        run.eval();
+        let copied = guard(|| {
+            let mut b = FontBuilder::new();
+            if own {
+                b.add_raw(Tag::new(b"zzzz"), vec![0xEEu8; 3]);
+            }
+            b.copy_missing_tables(font.clone());
+            b.build()
+        });
+        match copied {
+            Ok(f2) => {
+                if let Err((class, detail)) = check_sfnt(&f2, &want) {
+                    run.violation(&format!("copy_missing_tables from a hand-assembled sfnt: {class} ({vname})"), &format!("own zzzz: {own}: {detail}"), case.clone());
+                }
+            }
+            Err(p) => run.violation(&format!("copy_missing_tables from a hand-assembled sfnt: panic {} [{}]", p.kind(), p.site()), &p.message, case.clone()),
+        }
+    }
     let mut h = Fnv::new();
     h.str("external");
+    h.u64(variant as u64);
     run.observe(h.finish(), true);
+}
+
+// ---------------------------------------------------------------------------
+// hand-assembled collections (TTC header versions 1.0 and 2.0)
+// ---------------------------------------------------------------------------
+
+/// member m of a synthetic collection holds external table j iff (j + m) % 3 != 0 (m = 0 holds
+/// tables 1,2,4,5; shared table data, as in real collections); member sfnt version alternates
+/// 0x00010000 / OTTO
+fn ttc_member_model(m: usize) -> Vec<([u8; 4], Vec<u8>)> {
+    external_tables().into_iter().enumerate().filter(|(j, _)| (j + m) % 3 != 0).map(|(_, t)| t).collect()
+}
+
+/// TTC from the spec: 'ttcf', version, numFonts, offsets[numFonts], (version 2.0: dsigTag,
+/// dsigLength, dsigOffset = 0), member directories, then the shared table data.
+fn synth_ttc(major: u16, members: usize) -> Vec<u8> {
+    let tables = external_tables();
+    let mut out = vec![];
+    out.extend_from_slice(b"ttcf");
+    out.extend_from_slice(&major.to_be_bytes());
+    out.extend_from_slice(&0u16.to_be_bytes());
+    out.extend_from_slice(&(members as u32).to_be_bytes());
+    let header_len = 12 + 4 * members + if major >= 2 { 12 } else { 0 };
+    let models: Vec<Vec<([u8; 4], Vec<u8>)>> = (0..members).map(ttc_member_model).collect();
+    let mut dir_off = header_len;
+    let mut dir_offs = vec![];
+    for m in &models {
+        dir_offs.push(dir_off);
+        dir_off += 12 + 16 * m.len();
+    }
+    for d in &dir_offs {
+        out.extend_from_slice(&(*d as u32).to_be_bytes());
+    }
+    if major >= 2 {
+        out.extend_from_slice(&[0u8; 12]);
+    }
+    // table data placement (shared)
+    let mut data_off = vec![];
+    let mut at = dir_off;
+    for (_, d) in &tables {
+        data_off.push(at);
+        at += (d.len() + 3) / 4 * 4;
+    }
+    for (mi, m) in models.iter().enumerate() {
+        let n = m.len();
+        out.extend_from_slice(&(if mi % 2 == 0 { 0x0001_0000u32 } else { 0x4F54_544F }).to_be_bytes());
+        out.extend_from_slice(&(n as u16).to_be_bytes());
+        let sel = (usize::BITS - 1 - n.leading_zeros()) as u16;
+        out.extend_from_slice(&(16u16 << sel).to_be_bytes());
+        out.extend_from_slice(&sel.to_be_bytes());
+        out.extend_from_slice(&((16 * n as u16) - (16u16 << sel)).to_be_bytes());
+        for (tag, d) in m {
+            let j = tables.iter().position(|t| t.0 == *tag).unwrap();
+            out.extend_from_slice(tag);
+            out.extend_from_slice(&spec_checksum(d).0.to_be_bytes());
+            out.extend_from_slice(&(data_off[j] as u32).to_be_bytes());
+            out.extend_from_slice(&(d.len() as u32).to_be_bytes());
+        }
+    }
+    for (_, d) in &tables {
+        out.extend_from_slice(d);
+        out.resize((out.len() + 3) / 4 * 4, 0);
+    }
+    out
+}
+
+/// One collection (header version `major`.0, `members` fonts): `FileRef::new` sees a collection of
+/// that many fonts; `FontRef::from_index(i)` opens member i and returns exactly its tables; index
+/// == members is refused; `FontRef::new` refuses the collection; each member works as a
+/// `copy_missing_tables` source. `path` = Some(..) checks a collection file from the repository's
+/// test data instead (members/tables from the harness's own parse).
+fn ttc_case(run: &Run, major: u16, members: usize, repo_file: bool) {
+    let case = json!({"family":"ttc","major":major,"members":members,"repo_file":repo_file});
+    let (bytes, models): (Vec<u8>, Vec<Vec<([u8; 4], Vec<u8>)>>) = if repo_file {
+        let ttc = std::fs::read(repo_root().join("font-test-data/test_data/ttc/TTC.ttc")).unwrap_or_default();
+        let n = be32(&ttc, 8).unwrap_or(0) as usize;
+        let m: Vec<_> = (0..n).filter_map(|i| ttc_member_tables(&ttc, i)).collect();
+        if n == 0 || m.len() != n {
+            run.machinery_error("TTC.ttc not found or not parseable by the harness");
+            return;
+        }
+        (ttc, m)
+    } else {
+        (synth_ttc(major, members), (0..members).map(ttc_member_model).collect())
+    };
+    let members = models.len();
+    let kind = if repo_file { "repository TTC.ttc".to_string() } else { format!("hand-assembled, header version {major}.0") };
+    let viol = |class: &str, detail: String| run.violation(&format!("collection ({kind}): {class}"), &detail, case.clone());
+    run.eval();
+    match guard(|| FileRef::new(&bytes)) {
+        Ok(Ok(FileRef::Collection(c))) => {
+            if c.len() as usize != members || c.is_empty() != (members == 0) {
+                viol("CollectionRef::len differs from numFonts", format!("{} vs {members}", c.len()));
+            }
+            let got: Vec<bool> = c.iter().map(|f| f.is_ok()).collect();
+            if got != vec![true; members] {
+                viol("CollectionRef::iter does not yield every member", format!("{got:?}"));
+            }
+            if c.get(members as u32).is_ok() {
+                viol("CollectionRef::get accepts index == numFonts", String::new());
+            }
+        }
+        Ok(Ok(FileRef::Font(_))) => viol("FileRef::new takes a collection for a single font", String::new()),
+        Ok(Err(e)) => viol("FileRef::new does not open", format!("{e}")),
+        Err(p) => viol(&format!("FileRef::new panic {} [{}]", p.kind(), p.site()), p.message.clone()),
+    }
+    if let Ok(fr) = FileRef::new(&bytes) {
+        let n = fr.fonts().filter(|f| f.is_ok()).count();
+        if n != members {
+            viol("FileRef::fonts does not yield every member", format!("{n} of {members}"));
+        }
+    }
+    if FontRef::new(&bytes).is_ok() {
+        viol("FontRef::new opens a collection as a single font", String::new());
+    }
+    if FontRef::from_index(&bytes, members as u32).is_ok() {
+        viol("FontRef::from_index accepts index == numFonts", String::new());
+    }
+    for (i, model) in models.iter().enumerate() {
+        run.eval();
+        let font = match guard(|| FontRef::from_index(&bytes, i as u32)) {
+            Ok(Ok(f)) => f,
+            Ok(Err(e)) => {
+                viol("member does not open", format!("member {i}: {e}"));
+                continue;
+            }
+            Err(p) => {
+                viol(&format!("from_index panic {} [{}]", p.kind(), p.site()), p.message.clone());
+                continue;
+            }
+        };
+        let listed: Vec<[u8; 4]> = font.table_directory.table_records().iter().map(|r| r.tag().to_be_bytes()).collect();
+        let wanted: Vec<[u8; 4]> = model.iter().map(|t| t.0).collect();
+        if listed != wanted {
+            viol("member lists other tags than its directory holds", format!("member {i}: {} vs {}", listed.len(), wanted.len()));
+        }
+        for (tag, data) in model {
+            let got = font.table_data(Tag::new(tag)).map(|d| d.as_bytes().to_vec());
+            if got.as_deref() != Some(data.as_slice()) {
+                viol("member table not found or differs", format!("member {i} tag {:02x?}: got {:?} want {} bytes", tag, got.map(|g| g.len()), data.len()));
+            }
+        }
+        for (tag, _) in external_tables() {
+            if !model.iter().any(|t| t.0 == tag) && font.table_data(Tag::new(&tag)).is_some() {
+                viol("member answers for a table of another member", format!("member {i} tag {tag:02x?}"));
+            }
+        }
+        // copy source: fresh builder, and builder holding its own (empty) version of the member's first table
+        for own in [false, true] {
+            let mut want: BTreeMap<[u8; 4], Vec<u8>> = model.iter().cloned().collect();
+            let first = model.first().map(|t| t.0);
+            if let (true, Some(t)) = (own, first) {
+                want.insert(t, vec![]);
+            }
+            run.eval();
+            let copied = guard(|| {
+                let mut b = FontBuilder::new();
+                if let (true, Some(t)) = (own, first) {
+                    b.add_raw(Tag::new(&t), Vec::<u8>::new());
+                }
+                b.copy_missing_tables(font.clone());
+                b.build()
+            });
+            match copied {
+                Ok(f2) => {
+                    if let Err((class, detail)) = check_sfnt(&f2, &want) {
+                        viol(&format!("copy_missing_tables from a member: {class}"), format!("member {i} own: {own}: {detail}"));
+                    }
+                }
+                Err(p) => viol(&format!("copy_missing_tables from a member: panic {} [{}]", p.kind(), p.site()), p.message.clone()),
+            }
+        }
+    }
+    let mut h = Fnv::new();
+    h.str("ttc");
+    h.u64(major as u64);
+    h.u64(members as u64);
+    h.u64(repo_file as u64);
+    run.observe(h.finish(), true);
+    run.count("collection_checks", 1);
 }
 
 // ---------------------------------------------------------------------------
@@ -789,13 +1273,63 @@ fn sources() -> Sources {
 
 /// add_raw ops: 4 tags (one with a first byte >= 0x80) x {blob A, blob B, EMPTY blob}
 const N_ADD: u32 = 12;
+const N_SRC: u32 = 6;
+/// ops after the copies: add_table(&Head) [typed route, tag from `TopLevelTable::TAG`],
+/// add_table(&Maxp), add_raw(maxp, borrowed static slice)
+const N_EXTRA: u32 = 3;
+const OP_ADD_TABLE_HEAD: u32 = N_ADD + N_SRC;
+const OP_ADD_TABLE_MAXP: u32 = N_ADD + N_SRC + 1;
+const OP_ADD_RAW_BORROWED_MAXP: u32 = N_ADD + N_SRC + 2;
+static BORROWED_MAXP: [u8; 7] = [0x3A, 0x3B, 0x3C, 0x3D, 0x3E, 0x3F, 0x40];
+
+fn typed_head() -> write_fonts::tables::head::Head {
+    let mut h = write_fonts::tables::head::Head::default();
+    h.checksum_adjustment = 0xDEAD_BEEF; // supplied adjustment bytes are non-zero: build must zero them for the checksum
+    h.flags = 0x0003;
+    h.units_per_em = 1000;
+    h.lowest_rec_ppem = 9;
+    h
+}
+/// what `typed_head()` is on the wire, assembled here from the `head` chapter of the spec
+fn typed_head_bytes() -> Vec<u8> {
+    let mut b = vec![];
+    b.extend_from_slice(&[0, 1, 0, 0]); // majorVersion 1, minorVersion 0
+    b.extend_from_slice(&[0; 4]); // fontRevision
+    b.extend_from_slice(&0xDEAD_BEEFu32.to_be_bytes()); // checksumAdjustment
+    b.extend_from_slice(&0x5F0F_3CF5u32.to_be_bytes()); // magicNumber
+    b.extend_from_slice(&3u16.to_be_bytes()); // flags
+    b.extend_from_slice(&1000u16.to_be_bytes()); // unitsPerEm
+    b.extend_from_slice(&[0; 16]); // created, modified
+    b.extend_from_slice(&[0; 8]); // xMin yMin xMax yMax
+    b.extend_from_slice(&[0; 2]); // macStyle
+    b.extend_from_slice(&9u16.to_be_bytes()); // lowestRecPPEM
+    b.extend_from_slice(&2u16.to_be_bytes()); // fontDirectionHint
+    b.extend_from_slice(&[0; 4]); // indexToLocFormat, glyphDataFormat
+    b
+}
+/// `Maxp::new(7)` is a version 0.5 maxp: 0x00005000, numGlyphs
+const TYPED_MAXP_BYTES: [u8; 6] = [0, 0, 0x50, 0, 0, 7];
 
 fn op_name(op: u32) -> String {
     if op < N_ADD {
         format!("add_raw({},{})", Tag::new(HTAGS[(op / 3) as usize]), ["A", "B", "empty"][(op % 3) as usize])
-    } else {
+    } else if op < N_ADD + N_SRC {
         let i = op - N_ADD;
         format!("copy_missing(S{}{})", i + 1, ["", "", ":empty tables", ":TTC member", ":TTC member", ":hand-assembled, high-byte tags"].get(i as usize).copied().unwrap_or(""))
+    } else {
+        ["add_table(&Head)", "add_table(&Maxp)", "add_raw(maxp, &'static [u8;7])"].get((op - N_ADD - N_SRC) as usize).copied().unwrap_or("?").to_string()
+    }
+}
+
+fn op_kind(op: u32) -> &'static str {
+    if op >= N_ADD + N_SRC {
+        ["add_table", "add_table", "add-borrowed"][((op - N_ADD - N_SRC) as usize).min(2)]
+    } else if op >= N_ADD {
+        "copy"
+    } else if op % 3 == 2 {
+        "add-empty"
+    } else {
+        "add"
     }
 }
 
@@ -808,18 +1342,35 @@ fn run_history(run: &Run, ops: &[u32], srcs: &Sources, l: &mut Local) {
         for &op in ops {
             if op < N_ADD {
                 b.add_raw(Tag::new(HTAGS[(op / 3) as usize]), hist_blob((op / 3) as usize, (op % 3) as usize));
+            } else if op == OP_ADD_TABLE_HEAD {
+                b.add_table(&typed_head()).expect("Head compiles");
+            } else if op == OP_ADD_TABLE_MAXP {
+                b.add_table(&write_fonts::tables::maxp::Maxp::new(7)).expect("Maxp compiles");
+            } else if op == OP_ADD_RAW_BORROWED_MAXP {
+                b.add_raw(Tag::new(b"maxp"), &BORROWED_MAXP[..]);
             } else {
                 let (bytes, index) = &srcs.files[(op - N_ADD) as usize];
                 let f = FontRef::from_index(bytes, *index).expect("source font opens");
                 b.copy_missing_tables(f);
             }
         }
-        b.build()
+        // `contains` must agree with the model at the end of the history (checked below)
+        let has: Vec<bool> = HIST_PROBES.iter().map(|t| b.contains(Tag::new(t))).collect();
+        let mut listed: Vec<[u8; 4]> = b.ordered_tags().iter().map(|t| t.to_be_bytes()).collect();
+        listed.sort();
+        (b.build(), has, listed)
     });
     for &op in ops {
         if op < N_ADD {
             // last add_raw wins (an empty blob is a supplied table like any other)
             model.insert(*HTAGS[(op / 3) as usize], hist_blob((op / 3) as usize, (op % 3) as usize));
+        } else if op == OP_ADD_TABLE_HEAD {
+            // a typed table is "a tagged byte blob" too: its compiled bytes under its own tag, last add wins
+            model.insert(*b"head", typed_head_bytes());
+        } else if op == OP_ADD_TABLE_MAXP {
+            model.insert(*b"maxp", TYPED_MAXP_BYTES.to_vec());
+        } else if op == OP_ADD_RAW_BORROWED_MAXP {
+            model.insert(*b"maxp", BORROWED_MAXP.to_vec());
         } else {
             // copying never overrides
             for (t, bytes) in &srcs.models[(op - N_ADD) as usize] {
@@ -828,7 +1379,8 @@ fn run_history(run: &Run, ops: &[u32], srcs: &Sources, l: &mut Local) {
         }
     }
     l.builds += 1;
-    let file = match built {
+    let kinds: Vec<&str> = ops.iter().map(|o| op_kind(*o)).collect();
+    let (file, has, listed) = match built {
         Ok(f) => f,
         Err(p) => {
             run.violation(
@@ -839,14 +1391,54 @@ fn run_history(run: &Run, ops: &[u32], srcs: &Sources, l: &mut Local) {
             return;
         }
     };
+    // `FontBuilder::contains` / `ordered_tags` just before build: exactly the model's tags
+    let want_has: Vec<bool> = HIST_PROBES.iter().map(|t| model.contains_key(*t)).collect();
+    if has != want_has {
+        // identity: the direction of the first disagreement and whether the table concerned is empty
+        let i = (0..has.len()).find(|i| has[*i] != want_has[*i]).unwrap_or(0);
+        let class = if want_has[i] {
+            if model.get(HIST_PROBES[i]).map(|v| v.is_empty()).unwrap_or(false) { "says absent for a supplied EMPTY table" } else { "says absent for a supplied non-empty table" }
+        } else {
+            "says present for a tag never supplied"
+        };
+        run.violation(
+            &format!("FontBuilder::contains disagrees with the tables supplied: {class}"),
+            &format!("{:?}: probes {:?}: got {:?} want {:?}", names, HIST_PROBES.iter().map(|t| Tag::new(t).to_string()).collect::<Vec<_>>(), has, want_has),
+            case.clone(),
+        );
+    }
+    if listed != model.keys().copied().collect::<Vec<_>>() {
+        run.violation(
+            &format!("FontBuilder::ordered_tags is not a permutation of the tables supplied ({})", if listed.len() < model.len() { "too few" } else if listed.len() > model.len() { "too many" } else { "other tags" }),
+            &format!("{:?}: {} tags listed, {} supplied", names, listed.len(), model.len()),
+            case.clone(),
+        );
+    }
     match check_sfnt(&file, &model) {
         Ok(ch) => {
             let mut h = Fnv::new();
             h.str("hist");
             for (t, v) in &model {
                 h.bytes(t);
+                h.u64(v.len() as u64);
                 h.bytes(v);
             }
+            // the same final table set must give the same file whatever the route (the file is a
+            // function of the tag -> bytes map; `head` bytes 8..12 are overwritten by build)
+            let mut hm = Fnv::new();
+            for (t, v) in &model {
+                hm.bytes(t);
+                hm.u64(v.len() as u64);
+                if t == b"head" && v.len() >= 12 {
+                    hm.bytes(&v[..8]);
+                    hm.bytes(&v[12..]);
+                } else {
+                    hm.bytes(v);
+                }
+            }
+            let mut hf = Fnv::new();
+            hf.bytes(&file);
+            l.note_route(hm.finish(), hf.finish(), ops);
             h.u64(ch.wrapped as u64);
             l.all.insert(h.finish());
             // non-trivial: a copy happened after at least one add, or a tag was added twice
@@ -858,7 +1450,6 @@ fn run_history(run: &Run, ops: &[u32], srcs: &Sources, l: &mut Local) {
         }
         Err((class, detail)) => {
             // identity: failing clause + the shape of the history (op kinds only)
-            let kinds: Vec<&str> = ops.iter().map(|o| if *o >= N_ADD { "copy" } else if *o % 3 == 2 { "add-empty" } else { "add" }).collect();
             run.violation(
                 &format!("FontBuilder history: {class} after [{}]", kinds.join(",")),
                 &format!("{:?}: {}", names, detail),
@@ -870,10 +1461,16 @@ fn run_history(run: &Run, ops: &[u32], srcs: &Sources, l: &mut Local) {
 
 fn histories(run: &Run, depth: usize) {
     let srcs = sources();
-    let n_ops = N_ADD + srcs.files.len() as u32;
+    let n_ops = N_ADD + N_SRC + N_EXTRA;
     run.count("copy_sources", srcs.files.len() as u64);
-    if srcs.files.len() != 6 {
+    if srcs.files.len() != N_SRC as usize {
         run.machinery_error("TTC.ttc test collection not found or not parseable: TTC-member sources missing");
+        return;
+    }
+    // gate of the typed-route model: the harness's from-spec bytes are what the typed tables compile to
+    if write_fonts::dump_table(&typed_head()).ok() != Some(typed_head_bytes()) || write_fonts::dump_table(&write_fonts::tables::maxp::Maxp::new(7)).ok() != Some(TYPED_MAXP_BYTES.to_vec()) {
+        run.machinery_error("typed Head/Maxp do not compile to the bytes the harness assembled from the spec (model of add_table ops unusable)");
+        return;
     }
     // all op sequences of length 0..=depth, in fixed (length, lexicographic) order
     let mut seqs: Vec<Vec<u32>> = vec![vec![]];
@@ -897,10 +1494,24 @@ fn histories(run: &Run, depth: usize) {
             l
         })
         .collect();
+    let mut merged = Local::new();
     for l in &locals {
         run.observe_many(&l.all, &l.nontrivial);
         run.evals(l.builds);
+        for (m, (f, o)) in &l.routes {
+            merged.note_route(*m, *f, o);
+        }
+        merged.route_conflicts.extend(l.route_conflicts.iter().cloned());
     }
+    merged.route_conflicts.sort();
+    for (a, b) in merged.route_conflicts.iter().take(5) {
+        run.violation(
+            "FontBuilder history: two routes to the same final table set build different files",
+            &format!("{:?} vs {:?}", a.iter().map(|o| op_name(*o)).collect::<Vec<_>>(), b.iter().map(|o| op_name(*o)).collect::<Vec<_>>()),
+            json!({"family":"history_pair","ops":a,"other_ops":b}),
+        );
+    }
+    run.count("history_distinct_final_table_sets", merged.routes.len() as u64);
     run.trans(seqs.iter().map(|s| s.len() as u64 + 1).sum());
     run.count("histories", seqs.len() as u64);
     // determinism self-test: first 32 histories twice
@@ -949,7 +1560,19 @@ fn body(run: &Run, replay: Option<&Value>) {
     if let Some(case) = replay {
         let mut l = Local::new();
         if case["family"] == "external" {
-            external_font_check(run);
+            external_font_check(run, case["variant"].as_u64().unwrap_or(0) as u32 % EXTERNAL_VARIANTS);
+        } else if case["family"] == "ttc" {
+            ttc_case(run, case["major"].as_u64().unwrap_or(1) as u16, case["members"].as_u64().unwrap_or(1) as usize, case["repo_file"].as_bool().unwrap_or(false));
+        } else if case["family"] == "checksum_direct" {
+            checksum_direct_case(run, case["len"].as_u64().unwrap_or(0) as usize, case["fill"].as_u64().unwrap_or(2) as u8);
+        } else if case["family"] == "history_pair" {
+            let get = |k: &str| -> Vec<u32> { case[k].as_array().map(|a| a.iter().map(|x| x.as_u64().unwrap_or(0) as u32).collect()).unwrap_or_default() };
+            let srcs = sources();
+            run_history(run, &get("ops"), &srcs, &mut l);
+            run_history(run, &get("other_ops"), &srcs, &mut l);
+            for (a, b) in &l.route_conflicts {
+                run.violation("FontBuilder history: two routes to the same final table set build different files", &format!("{a:?} vs {b:?}"), case.clone());
+            }
         } else if case["family"] == "offset_width" {
             offset_width_case(run, case["k"].as_u64().unwrap_or(16) as u32, case["d"].as_i64().unwrap_or(0), &mut l);
         } else if case["family"] == "many_tables" {
@@ -985,11 +1608,48 @@ fn body(run: &Run, replay: Option<&Value>) {
         maps_family(run, &HIGH_POOL, 4, &[0, 1, 4, 13], &[1, 2], &permutations(4), "4tags_high_byte_pool_all_orders");
         maps_family(run, &HIGH_POOL, 8, &[0, 3, 13], &[1, 2], &[(0..8).collect(), (0..8).rev().collect()], "8tags_high_byte_pool_2_orders");
     }
-    external_font_check(run);
+    // every table length (not only mod-4 representatives); every special tag of ordered_tags
+    length_sweep(run);
+    for k in 1..=2 {
+        maps_family(run, &REC_POOL, k, &[0, 1, 13], &[2], &permutations(k), &format!("{k}tags_special_tag_pool_all_orders"));
+    }
+    maps_family(run, &REC_POOL, 3, &[0, 13], &[2], &permutations(3), "3tags_special_tag_pool_all_orders");
+    special_tag_sets(run);
+    run.bound("special_tag_pool", json!(REC_POOL.iter().map(|i| Tag::new(TAGS[*i]).to_string()).collect::<Vec<_>>()));
+    for v in 0..EXTERNAL_VARIANTS {
+        external_font_check(run, v);
+    }
+    run.bound("external_fonts", json!(EXTERNAL_NAMES));
+    // collections: the repository's TTC.ttc and hand-assembled ones with header version 1.0 / 2.0, 1..=3 members
+    ttc_case(run, 1, 0, true);
+    for major in [1u16, 2] {
+        for members in 1..=3usize {
+            ttc_case(run, major, members, false);
+        }
+    }
+    run.bound("collections", json!("repository TTC.ttc + hand-assembled collections: header version {1.0, 2.0 (with the three DSIG fields)} x {1,2,3} members (member m holds external table j iff (j+m)%3 != 0, shared table data, member sfnt version alternating 0x00010000/OTTO)"));
     offset_width_family(run);
     {
+        // table-count sweep: EVERY count 1..=max (search fields vs the spec formula for every n, every
+        // table read back, i.e. every binary-search position of every directory size)
+        let max = run.tier.pick(1100usize, 4200);
+        let locals: Vec<Local> = (1..=max)
+            .into_par_iter()
+            .fold(Local::new, |mut l, n| {
+                many_tables_case(run, n, &mut l);
+                l
+            })
+            .collect();
+        for l in &locals {
+            run.observe_many(&l.all, &l.nontrivial);
+            run.evals(l.builds);
+        }
+        run.count("table_count_sweep_fonts", max as u64);
+        run.bound("table_count_sweep", json!(format!("every table count 1..={max} (n-1 one-byte tables with generated tags + a 16-byte head)")));
+    }
+    {
         let mut l = Local::new();
-        let counts: Vec<usize> = if run.tier == Tier::Quick { vec![255, 256, 4095, 4096, 4097, 32767, 32768, 40000, 65535] } else { vec![255, 256, 4095, 4096, 4097, 8191, 8192, 16383, 16384, 32767, 32768, 32769, 40000, 49152, 65534, 65535] };
+        let counts: Vec<usize> = if run.tier == Tier::Quick { vec![2047, 2048, 2049, 3071, 3072, 3073, 4094, 4095, 4096, 4097, 32767, 32768, 40000, 65535] } else { vec![255, 256, 4095, 4096, 4097, 8191, 8192, 16383, 16384, 32767, 32768, 32769, 40000, 49152, 65534, 65535] };
         for n in counts.iter().copied() {
             many_tables_case(run, n, &mut l);
         }
@@ -1026,7 +1686,7 @@ fn body(run: &Run, replay: Option<&Value>) {
     // (b) histories
     let depth = run.tier.pick(4, 5);
     run.bound("history_depth", json!(depth));
-    run.bound("history_ops", json!((0..N_ADD + 6).map(op_name).collect::<Vec<_>>()));
+    run.bound("history_ops", json!((0..N_ADD + N_SRC + N_EXTRA).map(op_name).collect::<Vec<_>>()));
     histories(run, depth);
     // samples
     let s = MapCase { tags: vec![0, 2, 5], lens: vec![13, 3, 16], fills: vec![1, 2, 1], order: vec![2, 0, 1] };
